@@ -50,6 +50,8 @@ struct Inst {
     k: u8,
     desc: serde_json::Value,
     outputs_have_assets: bool,
+    /// lovelace entering through a reward withdrawal (implicit input)
+    implicit: u64,
 }
 
 fn make_instance(r: &mut Rng, ring: &'static KeyRing, n_offered: usize, k: u8) -> Option<Inst> {
@@ -91,9 +93,22 @@ fn make_instance(r: &mut Rng, ring: &'static KeyRing, n_offered: usize, k: u8) -
         }
         outs_desc.push(format!("coin={} assets={:?}", v.coin, v.assets.values().collect::<Vec<_>>()));
     }
+    // now and then a reward withdrawal pays (part of) the lovelace: the selection then starts from an
+    // implicit input and, for the multi-asset strategies, still has to collect the tokens
+    let mut implicit = 0u64;
+    let with_withdrawal = s.r.below(5) == 0;
+    if with_withdrawal {
+        let w = *s.r.pick(&[base * n_out + 5_000_000, 20 * base, 500_000, base]);
+        let kx = s.key_ix();
+        let ra = RewardAddress::new(s.net, &Credential::from_keyhash(&ring.keys[kx].hash));
+        let mut ws = Withdrawals::new();
+        ws.insert(&ra, &BigNum::from(w));
+        tb.set_withdrawals(&ws);
+        implicit = w;
+    }
     // pre-existing input
     let mut pre = vec![];
-    if s.r.below(3) == 0 {
+    if s.r.below(3) == 0 && !(with_withdrawal && s.r.bool()) {
         let kx = s.key_ix();
         let addr = s.key_address(kx);
         let v = Val::coin(*s.r.pick(&[1_000_000u64, 1_500_000, base, 300_000]));
@@ -129,8 +144,8 @@ fn make_instance(r: &mut Rng, ring: &'static KeyRing, n_offered: usize, k: u8) -
         offered_csl.add(&s.csl_utxo(i, None, None));
         off_desc.push(format!("#{} coin={} assets={:?}", j, v.coin, v.assets.values().collect::<Vec<_>>()));
     }
-    let desc = json!({"strategy": strat(k).1, "outputs": outs_desc, "offered": off_desc, "pre_existing": pre.iter().map(|i| s.utxos[*i].val.coin).collect::<Vec<_>>()});
-    Some(Inst { tb, utxos: s.utxos, offered, pre, offered_csl, k, desc, outputs_have_assets })
+    let desc = json!({"strategy": strat(k).1, "outputs": outs_desc, "offered": off_desc, "pre_existing": pre.iter().map(|i| s.utxos[*i].val.coin).collect::<Vec<_>>(), "withdrawal": implicit});
+    Some(Inst { tb, utxos: s.utxos, offered, pre, offered_csl, k, desc, outputs_have_assets, implicit })
 }
 
 fn outpoints_of(tb: &TransactionBuilder) -> Vec<(Vec<u8>, u64)> {
@@ -139,7 +154,7 @@ fn outpoints_of(tb: &TransactionBuilder) -> Vec<(Vec<u8>, u64)> {
 }
 
 fn sum_of(inst: &Inst, ops: &[(Vec<u8>, u64)]) -> Option<Val> {
-    let mut v = Val::default();
+    let mut v = Val::coin(inst.implicit);
     for (t, i) in ops {
         v.add(&vkit::ledger::find_utxo(&inst.utxos, t, *i)?.val);
     }
@@ -234,7 +249,7 @@ fn run_leaf(ctx: &mut Ctx, inst: &Inst, tape: &[u64]) -> Vec<(u64, u64)> {
                     }
                     // the builder's own figure agrees with the table
                     if let Ok(Ok(ei)) = guard(|| tb.get_explicit_input()) {
-                        if u64::from(ei.coin()) as i128 != have.coin {
+                        if u64::from(ei.coin()) as i128 != have.coin - inst.implicit as i128 {
                             let mut d = det();
                             d["get_explicit_input"] = json!(ei.coin().to_str());
                             d["table_sum"] = json!(have.coin.to_string());
